@@ -118,9 +118,7 @@ def parseMsg (toks : List String) : Option Msg :=
   | "unjail" => some (.unjail (g "addr"))
   | "send" => some (.send (g "from") (g "to") (n "amt"))
   | "changeparam" =>
-    -- a new access-control list is described to the model by the entry in which it differs: aclk=<key> aclo=<owner>
-    if g "key" == "gov/acl" && g "aclk" != "" then some (.changeParam (g "from") "gov/acl" (g "aclk" ++ "=" ++ g "aclo"))
-    else some (.changeParam (g "from") (g "key") (if g "val" == "" then "" else hexVal (g "val")))
+    some (.changeParam (g "from") (g "key") (if g "val" == "" then "" else hexVal (g "val")))
   | "daotransfer" => some (.daoTransfer (g "from") (g "to") (n "amt"))
   | "daoburn" => some (.daoBurn (g "from") (n "amt"))
   | "upgrade" => some (.upgrade (g "from") (n "h") (g "ver"))
